@@ -668,7 +668,11 @@ func (c Case) inDomain() bool {
 			}
 		}
 		// an unmatched [ next to bracket expressions is pattern parsing proper (C17)
-		if strings.Count(unq, "[") != strings.Count(unq, "]") && strings.Count(unq, "[") > 1 {
+		if strings.Count(unq, "[") != strings.Count(unq, "]") && (strings.Count(unq, "[") > 1 || strings.ContainsAny(unq, "*?")) {
+			return false
+		}
+		// a bracket expression whose first member is "]" ( []...] [!]...] [^]...] ): bracket parsing proper (C17)
+		if strings.Contains(unq, "[]") || strings.Contains(unq, "[!]") || strings.Contains(unq, "[^]") {
 			return false
 		}
 	}
